@@ -1,6 +1,398 @@
-From Coq Require Import ZArith List Bool Arith Lia.
+(* C03 proofs, part 1: strings, dictionaries, hamming_circle, sorted(). *)
+From Coq Require Import ZArith List Bool Arith Lia Permutation Sorted.
 Import ListNotations.
 From SCMO Require Import Lib.Val Model.C03.
 
-Lemma placeholder : hamming [65;67] [65;71] = 1%nat.
+(* ------------------------------------------------------------------ strings *)
+Lemma str_eqb_spec a b : reflect (a = b) (str_eqb a b).
+Proof.
+  revert b; induction a as [|x a IH]; intros [|y b]; cbn; try (constructor; congruence).
+  destruct (Z.eqb_spec x y) as [->|Hne]; cbn.
+  - destruct (IH b) as [->|Hne]; constructor; congruence.
+  - constructor; congruence.
+Qed.
+
+Lemma str_eqb_refl a : str_eqb a a = true.
+Proof. destruct (str_eqb_spec a a); congruence. Qed.
+
+Lemma str_eqb_eq a b : str_eqb a b = true <-> a = b.
+Proof. destruct (str_eqb_spec a b); split; congruence. Qed.
+
+Lemma str_eqb_neq a b : a <> b -> str_eqb a b = false.
+Proof. destruct (str_eqb_spec a b); congruence. Qed.
+
+Lemma str_eq_dec (a b : str) : {a = b} + {a <> b}.
+Proof. destruct (str_eqb_spec a b); auto. Qed.
+
+(* ------------------------------------------------------------------ generic list facts *)
+Lemma NoDup_app_intro {A} (l1 l2 : list A) :
+  NoDup l1 -> NoDup l2 -> (forall x, In x l1 -> In x l2 -> False) -> NoDup (l1 ++ l2).
+Proof.
+  induction l1 as [|a l1 IH]; intros H1 H2 Hd; cbn; auto.
+  inversion H1 as [|? ? Hna Hnd]; subst. constructor.
+  - rewrite in_app_iff. intros [H|H]; [auto|]. apply (Hd a); cbn; auto.
+  - apply IH; auto. intros x Hx1 Hx2. apply (Hd x); cbn; auto.
+Qed.
+
+Lemma NoDup_flat_map_intro {A B} (g : A -> list B) (l : list A) :
+  NoDup l -> (forall x, In x l -> NoDup (g x)) ->
+  (forall x y z, In x l -> In y l -> x <> y -> In z (g x) -> In z (g y) -> False) ->
+  NoDup (flat_map g l).
+Proof.
+  induction l as [|a l IH]; intros Hl Hg Hd; cbn; [constructor|].
+  inversion Hl as [|? ? Hna Hnd]; subst.
+  apply NoDup_app_intro.
+  - apply Hg; cbn; auto.
+  - apply IH; auto.
+    + intros x Hx. apply Hg; cbn; auto.
+    + intros x y z Hx Hy. apply Hd; cbn; auto.
+  - intros z Hz1 Hz2. apply in_flat_map in Hz2. destruct Hz2 as [y [Hy Hzy]].
+    apply (Hd a y z); cbn; auto. intros ->. contradiction.
+Qed.
+
+Lemma NoDup_map_inj_in {A B} (f : A -> B) (l : list A) :
+  (forall x y, In x l -> In y l -> f x = f y -> x = y) -> NoDup l -> NoDup (map f l).
+Proof.
+  induction l as [|a l IH]; intros Hinj Hl; cbn; [constructor|].
+  inversion Hl as [|? ? Hna Hnd]; subst. constructor.
+  - rewrite in_map_iff. intros [y [Hfy Hy]]. apply Hna.
+    rewrite (Hinj a y); cbn; auto.
+  - apply IH; auto. intros x y Hx Hy. apply Hinj; cbn; auto.
+Qed.
+
+Lemma fold_left_ext {A B} (f g : A -> B -> A) (l : list B) (a : A) :
+  (forall a x, f a x = g a x) -> fold_left f l a = fold_left g l a.
+Proof. intros H. revert a. induction l as [|x l IH]; intros a; cbn; [reflexivity|]. rewrite H. apply IH. Qed.
+
+Lemma fold_left_flat_map {A B C} (f : A -> C -> A) (g : B -> list C) (l : list B) (a : A) :
+  fold_left f (flat_map g l) a = fold_left (fun a x => fold_left f (g x) a) l a.
+Proof. revert a. induction l as [|x l IH]; intros a; cbn; [reflexivity|]. rewrite fold_left_app. apply IH. Qed.
+
+Lemma fold_left_map {A B C} (f : A -> C -> A) (g : B -> C) (l : list B) (a : A) :
+  fold_left f (map g l) a = fold_left (fun a x => f a (g x)) l a.
+Proof. revert a. induction l as [|x l IH]; intros a; cbn; [reflexivity|]. apply IH. Qed.
+
+(* ------------------------------------------------------------------ dictionaries *)
+Definition keys {V} (d : list (str * V)) : list str := map fst d.
+
+Lemma dget_dset_same {V} k (v : V) d : dget k (dset k v d) = Some v.
+Proof.
+  induction d as [|[k' v'] d IH]; cbn.
+  - rewrite str_eqb_refl. reflexivity.
+  - destruct (str_eqb k k') eqn:E; cbn; rewrite E; auto.
+Qed.
+
+Lemma dget_dset_other {V} k k' (v : V) d : k' <> k -> dget k' (dset k v d) = dget k' d.
+Proof.
+  intros Hne. induction d as [|[k2 v2] d IH]; cbn.
+  - rewrite (str_eqb_neq _ _ Hne). reflexivity.
+  - destruct (str_eqb_spec k k2) as [->|Hk]; cbn.
+    + rewrite (str_eqb_neq _ _ Hne). reflexivity.
+    + rewrite IH. reflexivity.
+Qed.
+
+Lemma keys_dset_in {V} k (v : V) d k' : In k' (keys (dset k v d)) <-> k' = k \/ In k' (keys d).
+Proof.
+  induction d as [|[k2 v2] d IH]; cbn.
+  - intuition congruence.
+  - destruct (str_eqb_spec k k2) as [->|Hk]; cbn.
+    + intuition congruence.
+    + rewrite IH. intuition congruence.
+Qed.
+
+Lemma keys_dset_nodup {V} k (v : V) d : NoDup (keys d) -> NoDup (keys (dset k v d)).
+Proof.
+  induction d as [|[k2 v2] d IH]; cbn; intros H.
+  - constructor; [intros []|constructor].
+  - inversion H as [|? ? Hna Hnd]; subst.
+    destruct (str_eqb_spec k k2) as [->|Hk]; cbn.
+    + constructor; auto.
+    + constructor; [|apply IH; auto].
+      intros Hin. apply (keys_dset_in k v d k2) in Hin. destruct Hin as [->|Hin]; [congruence|contradiction].
+Qed.
+
+Lemma dget_none_iff {V} k (d : list (str * V)) : dget k d = None <-> ~ In k (keys d).
+Proof.
+  induction d as [|[k2 v2] d IH]; cbn.
+  - intuition.
+  - destruct (str_eqb_spec k k2) as [->|Hk].
+    + split; [discriminate|]. intros H. exfalso. apply H. auto.
+    + rewrite IH. intuition congruence.
+Qed.
+
+Lemma dget_some_in {V} k (v : V) d : dget k d = Some v -> In (k, v) d.
+Proof.
+  induction d as [|[k2 v2] d IH]; cbn; [discriminate|].
+  destruct (str_eqb_spec k k2) as [->|Hk]; intros H.
+  - left. congruence.
+  - right. auto.
+Qed.
+
+Lemma dget_some_key {V} k (v : V) d : dget k d = Some v -> In k (keys d).
+Proof. intros H. apply dget_some_in in H. apply (in_map fst) in H. exact H. Qed.
+
+Lemma in_keys_dget {V} k (d : list (str * V)) : In k (keys d) -> exists v, dget k d = Some v.
+Proof.
+  intros H. destruct (dget k d) as [v|] eqn:E; [eauto|]. apply dget_none_iff in E. contradiction.
+Qed.
+
+Lemma in_dget {V} k (v : V) d : NoDup (keys d) -> In (k, v) d -> dget k d = Some v.
+Proof.
+  induction d as [|[k2 v2] d IH]; cbn; intros Hnd Hin; [contradiction|].
+  inversion Hnd as [|? ? Hna Hnd']; subst.
+  destruct Hin as [Heq|Hin].
+  - inversion Heq; subst. rewrite str_eqb_refl. reflexivity.
+  - destruct (str_eqb_spec k k2) as [->|Hk].
+    + exfalso. apply Hna. apply (in_map fst) in Hin. exact Hin.
+    + auto.
+Qed.
+
+Lemma dset_id {V} k (v : V) d : dget k d = Some v -> dset k v d = d.
+Proof.
+  induction d as [|[k2 v2] d IH]; cbn; [discriminate|].
+  destruct (str_eqb k k2) eqn:E; intros H.
+  - congruence.
+  - rewrite IH; auto.
+Qed.
+
+Definition dgetl {X} (k : str) (d : list (str * list X)) : list X :=
+  match dget k d with Some l => l | None => [] end.
+
+Lemma dappend_dset {X} k (x : X) d : dappend k x d = dset k (dgetl k d ++ [x]) d.
+Proof.
+  unfold dgetl. induction d as [|[k2 l2] d IH]; cbn; [reflexivity|].
+  destruct (str_eqb k k2) eqn:E; [reflexivity|]. rewrite IH. reflexivity.
+Qed.
+
+Lemma dgetl_dappend {X} k (x : X) d q :
+  dgetl q (dappend k x d) = if str_eqb q k then dgetl q d ++ [x] else dgetl q d.
+Proof.
+  rewrite dappend_dset. unfold dgetl at 1.
+  destruct (str_eqb_spec q k) as [->|Hne].
+  - rewrite dget_dset_same. reflexivity.
+  - rewrite dget_dset_other by exact Hne. reflexivity.
+Qed.
+
+(* ------------------------------------------------------------------ hamming_circle *)
+Definition alpha (c : Z) : Prop := In c alphabet.
+
+Lemma in_alphabet_Forall s : in_alphabet s = true <-> Forall alpha s.
+Proof.
+  unfold in_alphabet. rewrite forallb_forall, Forall_forall. unfold alpha.
+  split; intros H c Hc; specialize (H c Hc).
+  - apply existsb_exists in H. destruct H as [a [Ha E]]. apply Z.eqb_eq in E. subst. exact Ha.
+  - apply existsb_exists. exists c. split; [exact H|apply Z.eqb_refl].
+Qed.
+
+Lemma repl_unfold c : repl alphabet c =
+  [ (if Z.eqb c 65 then 78 else 65); (if Z.eqb c 67 then 78 else 67);
+    (if Z.eqb c 84 then 78 else 84); (if Z.eqb c 71 then 78 else 71) ]%Z.
 Proof. reflexivity. Qed.
+
+Lemma repl_neq c r : In r (repl alphabet c) -> r <> c.
+Proof.
+  rewrite repl_unfold. cbn [In].
+  destruct (Z.eqb_spec c 65), (Z.eqb_spec c 67), (Z.eqb_spec c 84), (Z.eqb_spec c 71); lia.
+Qed.
+
+Lemma repl_nodup c : NoDup (repl alphabet c).
+Proof.
+  rewrite repl_unfold.
+  destruct (Z.eqb_spec c 65), (Z.eqb_spec c 67), (Z.eqb_spec c 84), (Z.eqb_spec c 71); try lia;
+    repeat (constructor; [cbn [In]; lia|]); constructor.
+Qed.
+
+Lemma repl_complete c r : alpha c -> alpha r -> r <> c -> In r (repl alphabet c).
+Proof.
+  unfold alpha, alphabet. rewrite repl_unfold. cbn [In]. intros Hc Hr Hne.
+  destruct (Z.eqb_spec c 65), (Z.eqb_spec c 67), (Z.eqb_spec c 84), (Z.eqb_spec c 71); lia.
+Qed.
+
+Lemma circle_nil n : circle alphabet [] n = match n with O => [[]] | S _ => [] end.
+Proof. reflexivity. Qed.
+
+Lemma circle_cons c s n : circle alphabet (c :: s) n =
+  (match n with
+   | O => []
+   | S m => flat_map (fun r => map (cons r) (circle alphabet s m)) (repl alphabet c)
+   end) ++ map (cons c) (circle alphabet s n).
+Proof. reflexivity. Qed.
+
+Lemma hamming_cons a x b y : hamming (a :: x) (b :: y) = ((if Z.eqb a b then 0 else 1) + hamming x y)%nat.
+Proof. reflexivity. Qed.
+
+(* every enumerated string has the length of s and differs from it in exactly n positions *)
+Lemma circle_sound : forall s n x, In x (circle alphabet s n) -> length x = length s /\ hamming x s = n.
+Proof.
+  induction s as [|c s IH]; intros n x Hin.
+  - rewrite circle_nil in Hin. destruct n; cbn in Hin; [|contradiction].
+    destruct Hin as [<-|[]]. auto.
+  - rewrite circle_cons in Hin. apply in_app_iff in Hin. destruct Hin as [Hin|Hin].
+    + destruct n as [|m]; [contradiction|].
+      apply in_flat_map in Hin. destruct Hin as [r [Hr Hin]].
+      apply in_map_iff in Hin. destruct Hin as [y [<- Hy]].
+      apply IH in Hy. destruct Hy as [Hl Hh]. apply repl_neq in Hr.
+      rewrite hamming_cons. cbn [length]. destruct (Z.eqb_spec r c); [congruence|]. lia.
+    + apply in_map_iff in Hin. destruct Hin as [y [<- Hy]].
+      apply IH in Hy. destruct Hy as [Hl Hh].
+      rewrite hamming_cons, Z.eqb_refl. cbn [length]. lia.
+Qed.
+
+(* every string over the alphabet at distance n from s (over the alphabet) is enumerated *)
+Lemma circle_complete : forall s x, Forall alpha s -> Forall alpha x -> length x = length s ->
+  In x (circle alphabet s (hamming x s)).
+Proof.
+  induction s as [|c s IH]; intros x Hs Hx Hl.
+  - destruct x; [|discriminate]. cbn. auto.
+  - destruct x as [|a x]; [discriminate|].
+    inversion Hs as [|? ? Hc Hs']; subst. inversion Hx as [|? ? Ha Hx']; subst.
+    cbn [length] in Hl. assert (Hl' : length x = length s) by lia.
+    specialize (IH x Hs' Hx' Hl').
+    rewrite hamming_cons, circle_cons. apply in_app_iff.
+    destruct (Z.eqb_spec a c) as [->|Hne].
+    + right. cbn [Nat.add]. apply in_map. exact IH.
+    + left. cbn [Nat.add]. apply in_flat_map. exists a. split.
+      * apply repl_complete; auto.
+      * apply in_map. exact IH.
+Qed.
+
+(* each string is enumerated once *)
+Lemma circle_nodup : forall s n, NoDup (circle alphabet s n).
+Proof.
+  induction s as [|c s IH]; intros n.
+  - rewrite circle_nil. destruct n; repeat constructor. intros [].
+  - rewrite circle_cons. apply NoDup_app_intro.
+    + destruct n as [|m]; [constructor|].
+      apply NoDup_flat_map_intro.
+      * apply repl_nodup.
+      * intros r _. apply NoDup_map_inj_in; [|apply IH]. intros x y _ _ H. congruence.
+      * intros r1 r2 z _ _ Hne H1 H2.
+        apply in_map_iff in H1. destruct H1 as [y1 [<- _]].
+        apply in_map_iff in H2. destruct H2 as [y2 [E _]]. congruence.
+    + apply NoDup_map_inj_in; [|apply IH]. intros x y _ _ H. congruence.
+    + intros z H1 H2. apply in_map_iff in H2. destruct H2 as [y2 [<- _]].
+      destruct n as [|m]; [contradiction|].
+      apply in_flat_map in H1. destruct H1 as [r [Hr H1]].
+      apply in_map_iff in H1. destruct H1 as [y1 [E _]].
+      apply repl_neq in Hr. congruence.
+Qed.
+
+Lemma hamming_refl x : hamming x x = 0%nat.
+Proof. induction x as [|a x IH]; [reflexivity|]. rewrite hamming_cons, Z.eqb_refl, IH. reflexivity. Qed.
+
+Lemma hamming_zero : forall x y, length x = length y -> hamming x y = 0%nat -> x = y.
+Proof.
+  induction x as [|a x IH]; intros [|b y] Hl Hh; try discriminate; [reflexivity|].
+  rewrite hamming_cons in Hh. destruct (Z.eqb_spec a b) as [->|]; [|discriminate].
+  f_equal. apply IH; [cbn in Hl; lia|exact Hh].
+Qed.
+
+(* ------------------------------------------------------------------ sorted() *)
+Definition dle (x y : entry) : Prop := (fst x <= fst y)%nat.
+
+Lemma entry_leb_true x y : entry_leb x y = true -> dle x y.
+Proof.
+  unfold entry_leb, dle. intros H. apply orb_true_iff in H. destruct H as [H|H].
+  - apply Nat.ltb_lt in H. lia.
+  - apply andb_true_iff in H. destruct H as [H _]. apply Nat.eqb_eq in H. lia.
+Qed.
+
+Lemma entry_leb_false x y : entry_leb x y = false -> dle y x.
+Proof.
+  unfold entry_leb, dle. intros H. apply orb_false_iff in H. destruct H as [H _].
+  apply Nat.ltb_ge in H. exact H.
+Qed.
+
+Lemma insert_perm x l : Permutation (insert x l) (x :: l).
+Proof.
+  induction l as [|y l IH]; cbn; [reflexivity|].
+  destruct (entry_leb x y); [reflexivity|].
+  rewrite IH. apply perm_swap.
+Qed.
+
+Lemma sort_perm l : Permutation (sort l) l.
+Proof.
+  induction l as [|x l IH]; cbn; [reflexivity|].
+  rewrite insert_perm. constructor. exact IH.
+Qed.
+
+Lemma HdRel_insert a x l : HdRel dle a l -> dle a x -> HdRel dle a (insert x l).
+Proof.
+  intros Hh Hax. destruct l as [|y l]; cbn.
+  - constructor. exact Hax.
+  - destruct (entry_leb x y); constructor; [exact Hax|]. inversion Hh; auto.
+Qed.
+
+Lemma insert_sorted x l : Sorted dle l -> Sorted dle (insert x l).
+Proof.
+  induction l as [|y l IH]; cbn; intros Hs.
+  - repeat constructor.
+  - destruct (entry_leb x y) eqn:E.
+    + constructor; [exact Hs|]. constructor. apply entry_leb_true. exact E.
+    + inversion Hs as [|? ? Hs' Hh]; subst. constructor; [apply IH; exact Hs'|].
+      apply HdRel_insert; [exact Hh|]. apply entry_leb_false. exact E.
+Qed.
+
+Lemma sort_sorted l : StronglySorted dle (sort l).
+Proof.
+  apply Sorted_StronglySorted.
+  - intros x y z. unfold dle. lia.
+  - induction l as [|x l IH]; cbn; [constructor|]. apply insert_sorted. exact IH.
+Qed.
+
+(* what expand does with the sorted list: the first element unless the first two distances tie *)
+Definition pick (l : list entry) : option entry :=
+  match sort l with
+  | [] => None
+  | x :: rest => if (match rest with y :: _ => Nat.eqb (fst x) (fst y) | [] => false end) then None else Some x
+  end.
+
+Lemma pick_some l x : NoDup l -> pick l = Some x ->
+  In x l /\ forall y, In y l -> y <> x -> (fst x < fst y)%nat.
+Proof.
+  unfold pick. intros Hnd Hp.
+  pose proof (sort_perm l) as Hperm. pose proof (sort_sorted l) as Hss.
+  destruct (sort l) as [|x0 rest] eqn:Es; [discriminate|].
+  assert (Hnd' : NoDup (x0 :: rest)) by (eapply Permutation_NoDup; [symmetry; exact Hperm|exact Hnd]).
+  inversion Hss as [|? ? Hss' Hall]; subst.
+  destruct rest as [|y0 rest'].
+  - inversion Hp; subst. split.
+    + eapply Permutation_in; [exact Hperm|]. cbn; auto.
+    + intros y Hy Hne. apply (Permutation_in (l' := [x])) in Hy; [|symmetry; exact Hperm].
+      destruct Hy as [->|[]]. congruence.
+  - destruct (Nat.eqb_spec (fst x0) (fst y0)) as [|Hne0]; [discriminate|].
+    inversion Hp; subst. split.
+    + eapply Permutation_in; [exact Hperm|]. cbn; auto.
+    + intros y Hy Hne. apply (Permutation_in (l' := x :: y0 :: rest')) in Hy; [|symmetry; exact Hperm].
+      destruct Hy as [->|Hy]; [congruence|].
+      inversion Hall as [|? ? Hxy0 Hall']; subst.
+      inversion Hss' as [|? ? _ Hall2]; subst.
+      unfold dle in *.
+      destruct Hy as [->|Hy]; [lia|].
+      rewrite Forall_forall in Hall2. specialize (Hall2 y Hy). unfold dle in Hall2. lia.
+Qed.
+
+Lemma pick_none l : l <> [] -> NoDup l -> pick l = None ->
+  exists x y, In x l /\ In y l /\ x <> y /\ fst x = fst y /\ forall z, In z l -> (fst x <= fst z)%nat.
+Proof.
+  unfold pick. intros Hne Hnd Hp.
+  pose proof (sort_perm l) as Hperm. pose proof (sort_sorted l) as Hss.
+  destruct (sort l) as [|x0 rest] eqn:Es.
+  - exfalso. apply Hne. apply Permutation_nil. exact Hperm.
+  - assert (Hnd' : NoDup (x0 :: rest)) by (eapply Permutation_NoDup; [symmetry; exact Hperm|exact Hnd]).
+    destruct rest as [|y0 rest']; [discriminate|].
+    destruct (Nat.eqb_spec (fst x0) (fst y0)) as [Heq|]; [|discriminate].
+    exists x0, y0. repeat split.
+    + eapply Permutation_in; [exact Hperm|]. cbn; auto.
+    + eapply Permutation_in; [exact Hperm|]. cbn; auto.
+    + intros ->. inversion Hnd' as [|? ? Hna _]; subst. apply Hna. cbn; auto.
+    + exact Heq.
+    + intros z Hz. apply (Permutation_in (l' := x0 :: y0 :: rest')) in Hz; [|symmetry; exact Hperm].
+      inversion Hss as [|? ? _ Hall]; subst. destruct Hz as [->|Hz]; [lia|].
+      rewrite Forall_forall in Hall. specialize (Hall z Hz). exact Hall.
+Qed.
+
+Lemma sort_nonempty l : l <> [] -> sort l <> [].
+Proof.
+  intros Hne Hs. apply Hne. apply Permutation_nil. rewrite <- Hs. apply sort_perm.
+Qed.
